@@ -14,13 +14,15 @@ add("C01", EX, "runtime monitor: independent SGR interpreter on str(f) vs constr
 add("C03", EX, "runtime monitor: decoder facts (prefix trie + incremental codecs) at every node of the decoder's decision tree; end-to-end equality through Input over a pty; forked crash-point enumeration inside a decode in progress",
     "The real get_key is driven byte by byte over its whole decision tree for ascii and latin-1 (complete) and the "
     "ESC subtree/two levels of utf-8, every table sequence x every byte, table pairs, Unicode scalars (all in "
-    "thorough), random chunked streams, and the same reads through Input.send over a pty. One recorded finding "
-    "(prefix then undecodable byte).",
+    "thorough), random chunked streams, and the same reads through Input.send over a pty (reads that end inside a "
+    "keypress are carried into the next read, as Input keeps them). One recorded finding at the decoder itself (prefix "
+    "then undecodable byte); where it strikes, Input must either pass the failure on or hand back every byte.",
     TB + "Names come from the live tables; facts from an independent prefix set and Python's codecs. Deeper invalid "
     "UTF-8 continuations are sampled, not enumerated.")
 add("C04", EX, "runtime monitor: cell-grid reference model stepped alongside the real FSArray + icontract row-width invariant",
     "Random assignment histories on small arrays with a grid model compared cell by cell after every step, must-raise "
-    "cases checked for no visible change; thorough adds all regions x row-length classes on pre-filled 3x3 arrays.",
+    "cases checked for no visible change, rows also named with omitted/negative bounds (a 0.3 s alarm catches an assignment "
+    "that never ends), rows read back from the end; thorough adds all regions x row-length classes on pre-filled 3x3 arrays.",
     TB + "Long rows landing on never-written cells and zero-area regions are don't-care (counted).")
 add("C05", EX, "runtime monitor: round trip and grammar strings compared per cell with the SGR interpreter; forked crash-point enumeration over the process's first parse",
     "All attribute sets round-tripped with newline/tab/wide text, random multi-run round trips, random strings of "
@@ -28,11 +30,12 @@ add("C05", EX, "runtime monitor: round trip and grammar strings compared per cel
     TB + "Grammar restricted to the supported codes and the empty parameter list (the quantifier).")
 add("C06", EX, "runtime monitor: Python list operations on observed cell lists as postcondition oracle",
     "Every run layout up to the bound x every slice bound/index in [-len-2, len+2]+None, all layout pairs for +, "
-    "repeat counts, joins; results' cells compared with list operations on operand cells.",
+    "repeat counts, joins (also over a FmtStr as the iterable), iteration; results' cells compared with list operations "
+    "on operand cells. One recorded finding: join parses a plain str that holds an escape sequence as markup.",
     TB + "Cells observed through str()+SGR interpreter (C01).")
 add("C09", EX, "runtime monitor: list splice on cell lists as postcondition oracle",
     "Every layout x replacement family x every 0<=start<=end<=len+2 (and end omitted), append, random larger cases; "
-    "operands re-observed afterwards.",
+    "operands re-observed afterwards. One recorded finding: splice/append parse a plain str that holds an escape sequence as markup.",
     TB + "Cells observed through str()+SGR interpreter (C01).")
 add("C10", EX, "runtime monitor: column-expanded cell model with widths from the pure-Python wcwidth package",
     "Every string up to length 3 (5 thorough) over narrow/wide/combining characters x run partitions x every column "
@@ -45,15 +48,18 @@ add("C11", EX, "runtime monitor: greedy reference wrap on cells",
 add("C13", EX, "runtime monitor: snapshot registry over straight-line programs + icontract class invariant on memo slots + in-place edit attempts",
     "Seeded programs over a growing pool using the whole public operation set with interleaved observations; every "
     "value's snapshot must never change, memo slots must equal recomputed values (invariant around every method "
-    "call), edits must raise.",
+    "call), edits must raise (item assignment, every mutator of a run's attribute dict, assignment to a run's s/atts/width/color_str).",
     TB + "The memo invariant names the private slots; the behavioural comparison with a fresh copy does not.")
 add("C14", EX, "runtime monitor: attribute algebra on cells, all spellings compared",
     "All 59049 specifications (thorough; sample in quick) x 4 base values x 6 spellings; removal of every attribute "
-    "subset; copy_with_new_str; shared_atts; invalid catalogue must raise ValueError.",
-    TB + "Non-bool style values are recorded, not judged.")
+    "subset; copy_with_new_str (also with stray zero-length runs); shared_atts; the invalid catalogue (unknown, contradictory, "
+    "mis-typed) must raise ValueError through fmtstr and through copy_with_new_atts.",
+    TB + "Unusual but meaningful values (bold=0, bold=1, fg=31.0, fg='red' to copy_with_new_atts) may be refused with ValueError "
+    "or accepted with their obvious meaning; only an incoherent result is a violation.")
 add("C15", EX, "runtime monitor: the str method on the plain text as oracle + positional cell bookkeeping",
     "Enumerated small texts and random layouts x curated str methods x argument pool; text equality with str, "
-    "per-position formatting for split/splitlines, shared formatting and no invented formatting otherwise.",
+    "per-position formatting for split/splitlines (every line boundary str.splitlines knows), shared formatting and no "
+    "invented formatting otherwise; non-text answers (bytes from encode, ints, bools) must be str's.",
     TB + "Nothing is demanded where str itself raises; padding of ljust/rjust only needs to be free of invented formatting.")
 add("C16", EX, "runtime monitor: greedy first-fit reference wrap on cells",
     "Every text up to length 5 (7 thorough) over {a,b,space,tab,newline} x 4 formatting patterns x columns 1..7 plus "
@@ -61,8 +67,9 @@ add("C16", EX, "runtime monitor: greedy first-fit reference wrap on cells",
     TB)
 add("C17", EX, "runtime monitor: tagged-piece generator (text known by construction) + subsequence oracle",
     "All strings of <=3 (5 thorough) tokens over a 14-token alphabet, random longer ones, tagged text/escape mixtures, "
-    "Pygments output of the repository's sources: never raises, subsequence, text pieces kept, exact for numeric CSI.",
-    TB)
+    "Pygments output of the repository's sources: never raises, subsequence, text pieces kept, exact for numeric CSI "
+    "(7-bit or 8-bit introducer, empty parameters allowed).",
+    TB + "What is text is decided by construction of the input, not by a second parser.")
 add("C19", EX, "runtime monitor: ==/hash/set/dict vs terminal-string equality on all ordered pairs of a pool; eval(repr) cells",
     "All ordered pairs of a 400-value (1500 thorough) engineered pool, plain-str comparisons in both operand orders, "
     "eval(repr(f)) for every value with a run.",
@@ -70,7 +77,8 @@ add("C19", EX, "runtime monitor: ==/hash/set/dict vs terminal-string equality on
 add("C20", EX, "runtime monitor: three naming modes executed per node of the decoder's decision tree; producible-name set collected by observation",
     "Every node of the C03 exploration in all modes and both full situations; tables nested; every valid configuration "
     "name must map to names observed from the decoder.",
-    TB + "Upper-case C-A, C-1, F13, M-<space> are not configuration-file keys (not judged).")
+    TB + "C-<upper case letter> and M-<space> may be refused or accepted (judged when accepted); C-1, F13, M-<non-ASCII> are not "
+    "configuration-file keys (recorded, not judged).")
 add("C02", EX, "runtime monitor: recorded out_stream interpreted by a reference terminal (xterm pending-wrap semantics) compared cell by cell after every render",
     "Histories of renders and resizes (random junk left on the screen) on a real FullscreenWindow, sizes 1-6 x 1-8, array "
     "height/row-length classes incl. larger than the terminal; every cell, the cursor and the scroll counter are checked "
@@ -78,23 +86,30 @@ add("C02", EX, "runtime monitor: recorded out_stream interpreted by a reference 
     TB + "The terminal model is the root of trust; a sequence it does not know makes the run inconclusive. Single-column characters.")
 add("C07", EX, "runtime monitor: reference terminal with scrollback + origin tracking in absolute line numbers",
     "Histories on a real CursorAwareWindow with scripted cursor-query replies from the model: history above the window, "
-    "window rows, scroll count, return value and cursor cell checked after every render and after exit.",
+    "window rows, scroll count, return value and cursor cell checked after every render and after exit; a quarter of the "
+    "histories leave the context and enter the same window again.",
     TB + "Rows not longer than the width; DSR replies come from the model.")
 add("C08", EX, "runtime monitor: client-boundary history recording + offline history checker (conservation, exactly-once, ordering, timing lower bounds); yield injection; ping-pong and paired-trigger schedule stress",
     "Sequential and concurrent histories against a real Input over a byte-transparent pty; an offline checker decides "
     "conservation/order of bytes, exactly-once per trigger, scheduled-event order, timeouts, paste segmentation, name-mode "
     "segmentation across the 1024-byte read size; sys.monitoring yield injection shakes thread schedules and distinct "
-    "interleavings are counted.",
-    TB + "Not all interleavings: sampled schedules only; bursts <= 4000 bytes; arrivals are whole keypresses; timing conditions are one-sided.")
-add("C12", "fault_enumeration", "runtime monitor: before/after state snapshots at every line-level crash point (sys.monitoring failpoints), option matrix, real SIGINTs",
+    "interleavings are counted. Scenario families beyond that: bursts behind buffered keys, keypresses cut between two or "
+    "three arrivals (also into a blocked request), 6-60 KB floods written in pieces while requests run, escape prefixes "
+    "followed by non-ASCII characters, falsy event objects.",
+    TB + "Not all interleavings: sampled schedules only; exact paste/segmentation expectations only for bursts <= 4000 bytes that "
+    "arrive whole, conservation beyond that; timing conditions are one-sided; scheduled triggers are called from the requesting thread.")
+add("C12", "fault_enumeration", "runtime monitor: before/after state snapshots at every crash point - each statement start and each return of a C call (sys.monitoring LINE and C_RETURN failpoints) - option matrix, real SIGINTs",
     "For each scenario of the option matrix the body is first run to count the line-level events of curtsies code, then "
     "re-run once per event raising a KeyboardInterrupt subclass there; tty attributes, file status flags, SIGINT handler, "
     "wake-up fd, fd table and the reference terminal's cursor/buffer state must equal the pre-entry snapshot. Plus "
-    "operation-boundary crashes over the whole matrix, real SIGINTs into blocked requests and fd-leak cycles.",
-    TB + "Crash points are statement boundaries (a bare try: line and a with statement's exit sequence are skipped as impossible "
-    "crash points); exceptions inside __enter__/__exit__ of the context under test and sub-statement windows are out of reach.")
+    "operation-boundary crashes over the whole matrix, applications that catch the interrupt around a request and carry on "
+    "(stream never non-blocking between requests), real SIGINTs into blocked requests, a real-SIGINT storm within "
+    "microseconds of a key arriving, and fd-leak cycles.",
+    TB + "Crash points are statement starts and C-call returns (a bare try: line and a with statement's exit sequence are skipped "
+    "as impossible crash points); exceptions inside __enter__/__exit__ of the context under test are out of reach.")
 add("C18", EX, "runtime monitor: scripted in_stream accounting for the report parser; movement conservation on the reference terminal incl. nested queries",
     "Random extra/report/trailing scripts with OSError injection: return value, callback bytes, ValueError, characters "
     "consumed; histories of renders, cursor movements and (nested) get_cursor_vertical_diff calls: change of "
-    "top_usable_row + returned values = movement.",
-    TB + "extra never contains a complete report.")
+    "top_usable_row + returned values = movement, also after a query that failed with the prescribed ValueError; "
+    "typed-ahead bytes invalid in the stream encoding (surrogateescape streams).",
+    TB + "extra never contains a complete report; window origin inside the screen.")
